@@ -82,6 +82,9 @@ func newPos(l *lookup, fileName, funcName string, line, column int) pos {
 	return pos((fileNameIdx << 48) | (funcNameIdx << 32) | (line << 16) | column)
 }
 
+// sameLine reports whether two positions are on the same line of the same file and function.
+func sameLine(a, b pos) bool { return a>>16 == b>>16 }
+
 func (p pos) IsZero() bool {
 	// return false
 	return p == 0
@@ -935,11 +938,11 @@ func (c *compiler) doOptimize(in []instruction) []instruction {
 		case n < len(in)-2 && in[n].Code == codeLocalGet && in[n+1].Code == codePush && in[n+2].Code == codeSet:
 			out = append(out, instruction{Pos: in[n].Pos, Code: codeFastSetInt, A: in[n].A, B: in[n+1].A})
 			n += 2
-		case n < len(in)-2 && in[n].Code == codeLocalGet && in[n+1].Code == codeGetAttr && in[n+2].Code == codeCall:
-			out = append(out, instruction{Pos: in[n].Pos, Code: codeFastCallAttr, A: in[n].A, B: in[n+1].A, C: joinParams(in[n+2].A, in[n+2].B)})
+		case n < len(in)-2 && in[n].Code == codeLocalGet && in[n+1].Code == codeGetAttr && in[n+2].Code == codeCall && sameLine(in[n+1].Pos, in[n+2].Pos):
+			out = append(out, instruction{Pos: in[n+2].Pos, Code: codeFastCallAttr, A: in[n].A, B: in[n+1].A, C: joinParams(in[n+2].A, in[n+2].B)})
 			n += 2
 		case n < len(in)-1 && in[n].Code == codeGlobalGet && in[n+1].Code == codeCall:
-			out = append(out, instruction{Pos: in[n].Pos, Code: codeFastCall, A: in[n].A, B: in[n+1].A, C: in[n+1].B})
+			out = append(out, instruction{Pos: in[n+1].Pos, Code: codeFastCall, A: in[n].A, B: in[n+1].A, C: in[n+1].B})
 			n += 1
 
 		case n < len(in)-1 && in[n].Code == codeLocalGet && in[n+1].Code == codeGetAttr:
